@@ -396,6 +396,9 @@ func (s *streamGRPC) RecvMsg(m interface{}) error {
 	}
 	b = b[:size]
 	if _, err := io.ReadFull(s.r, b); err != nil {
+		if err == io.EOF {
+			err = io.ErrUnexpectedEOF // the frame header promised a payload
+		}
 		return err
 	}
 
